@@ -67,6 +67,7 @@ ldb_reader_init(ldb_reader_t *lr,
   lr->end_offset = 0;
   lr->initial_offset = initial_offset;
   lr->resyncing = (initial_offset > 0);
+  lr->dirty = 0;
 }
 
 void
@@ -78,6 +79,8 @@ ldb_reader_clear(ldb_reader_t *lr) {
 /* buffer must be updated to remove the dropped bytes prior to invocation. */
 static void
 report_drop(ldb_reader_t *lr, int64_t bytes, int reason) {
+  lr->dirty = 1;
+
   if (lr->reporter != NULL &&
       lr->end_offset - lr->buffer.size - bytes >= lr->initial_offset) {
     lr->reporter->corruption(lr->reporter, bytes, reason);
@@ -144,6 +147,9 @@ read_physical_record(ldb_reader_t *lr, ldb_slice_t *result) {
          end of the file, which can be caused by the writer crashing in the
          middle of writing the header. Instead of considering this an error,
          just report EOF. */
+      if (lr->buffer.size > 0)
+        lr->dirty = 1;
+
       ldb_slice_reset(&lr->buffer);
 
       return LDB_EOF;
@@ -169,6 +175,8 @@ read_physical_record(ldb_reader_t *lr, ldb_slice_t *result) {
       /* If the end of the file has been reached without reading |length| bytes
          of payload, assume the writer died in the middle of writing the record.
          Don't report a corruption. */
+      lr->dirty = 1;
+
       return LDB_EOF;
     }
 
@@ -176,6 +184,8 @@ read_physical_record(ldb_reader_t *lr, ldb_slice_t *result) {
       /* Skip zero length record without reporting any drops since
          such records are produced by the mmap based writing code in
          env_unix_impl.h that preallocates file regions. */
+      lr->dirty = 1;
+
       ldb_slice_reset(&lr->buffer);
 
       return LDB_BAD_RECORD;
@@ -374,6 +384,8 @@ ldb_reader_read_record(ldb_reader_t *lr,
           /* This can be caused by the writer dying immediately after
              writing a physical record but before completing the next; don't
              treat it as a corruption, just ignore the entire logical record. */
+          lr->dirty = 1;
+
           ldb_buffer_reset(scratch);
         }
 
